@@ -94,10 +94,17 @@ impl<'a, 'tcx> Cx<'a, 'tcx> {
         for elem in p.projection.iter() {
             let j = match elem {
                 ProjectionElem::Deref => J::s("*"),
-                ProjectionElem::Field(f, _) => J::O(vec![
-                    ("f", J::S(self.field_name(&pty, f))),
-                    ("i", J::I(f.as_usize() as i128)),
-                ]),
+                ProjectionElem::Field(f, _) => {
+                    let of = match pty.ty.kind() {
+                        ty::Adt(def, _) => J::S(pretty_def(tcx, def.did())),
+                        _ => J::Null,
+                    };
+                    J::O(vec![
+                        ("f", J::S(self.field_name(&pty, f))),
+                        ("i", J::I(f.as_usize() as i128)),
+                        ("of", of),
+                    ])
+                }
                 ProjectionElem::Index(l) => J::O(vec![("idx", J::I(l.as_usize() as i128))]),
                 ProjectionElem::ConstantIndex { offset, min_length, from_end } => J::O(vec![
                     ("cidx", J::I(offset as i128)),
